@@ -2,11 +2,11 @@
    condition on the TEXT:
      s <> "eyecite"                    (the easter egg)
      ws_clean is_space_gen s           (no whitespace other than U+0020: eyecite's all_whitespace)
-     odd_short_rows_silent s           (none of the 11 short-form extractors whose page group is
-                                        not at the end of the match produces a candidate;
-                                        Proofs/ShortPage.v)
-   The contracts of the metadata searches are no longer assumed: the guarded contracts are PROVED
-   for the engine (Proofs/SearchGuarded.v); the unguarded ones are false (Proofs/Vacuity.v). *)
+   The contracts of the metadata searches are not assumed: the guarded contracts are PROVED for the
+   engine (Proofs/SearchGuarded.v; the unguarded ones are false, Proofs/Vacuity.v).  The token
+   contract holds for every text (Proofs/ClosedCorollaries.v: toks_ok_closed_all); that a short-form
+   token ends with its page group is no longer needed, since the repaired
+   _extract_shortform_citation checks it (it is false for 11 extractors, Proofs/ShortPage.v). *)
 From EV Require Import Base.Str Base.PyVal Regex.Syntax Regex.Match Regex.C13Check.
 From EV Require Import Model.Tokenize Model.TokenizeEq Model.Editions Model.Filter Model.Pipeline.
 From EV Require Import Model.SearchEngine Model.Extract Model.E2E Model.RefEngine Model.E2EClosed.
@@ -19,27 +19,27 @@ Close Scope N_scope.
 Open Scope nat_scope.
 
 Theorem closed_offsets_final : forall this_year s ra l,
-  s <> s_eyecite -> ws_clean is_space_gen s -> odd_short_rows_silent s ->
+  s <> s_eyecite -> ws_clean is_space_gen s ->
   get_citations_closed this_year s ra = Ok l ->
   Forall (offsets_ok s) l.
 Proof.
-  intros this_year s ra l Hne Hclean Hsil Hg. rewrite get_citations_closed_eq in Hg.
+  intros this_year s ra l Hne Hclean Hg. rewrite get_citations_closed_eq in Hg.
   destruct (tokenize_text_stream_ok s) as [Hstream Hcits].
   exact (get_citations_offsets_g _ _ _ _ _ _ _ _ _ _ _ _ _ _ _ _
-           Hne Hclean Hstream Hcits (toks_ok_closed s (short_page_ok_of_silent s Hsil))
+           Hne Hclean Hstream Hcits (toks_ok_closed_all s)
            E_search_ok_g refs_engine_ok E_post_short_total Hg).
 Qed.
 
 Theorem closed_metadata_ra_final : forall this_year s ra l,
-  s <> s_eyecite -> ws_clean is_space_gen s -> odd_short_rows_silent s ->
+  s <> s_eyecite -> ws_clean is_space_gen s ->
   get_citations_closed this_year s ra = Ok l ->
   exists l0, get_citations_closed this_year s false = Ok l0 /\
              (forall c, In c l -> In c l0) /\ Forall (meta_ok s l0) l.
 Proof.
-  intros this_year s ra l Hne Hclean Hsil Hg. rewrite get_citations_closed_eq in Hg.
+  intros this_year s ra l Hne Hclean Hg. rewrite get_citations_closed_eq in Hg.
   destruct (tokenize_text_stream_ok s) as [Hstream Hcits].
   destruct (get_citations_metadata_ra_g _ _ _ _ _ _ _ _ _ _ _ _ _ _ _ _
-              Hne Hclean Hstream Hcits (toks_ok_closed s (short_page_ok_of_silent s Hsil))
+              Hne Hclean Hstream Hcits (toks_ok_closed_all s)
               E_search_ok_g refs_engine_ok E_defyear_ok_g
               (tokenize_text_cits_sorted s) (tokenize_text_cits_nonempty_all s) Hg)
     as [l0 [Hg0 [Hsub Hmeta]]].
@@ -47,12 +47,12 @@ Proof.
 Qed.
 
 Theorem closed_metadata_final : forall this_year s l,
-  s <> s_eyecite -> ws_clean is_space_gen s -> odd_short_rows_silent s ->
+  s <> s_eyecite -> ws_clean is_space_gen s ->
   get_citations_closed this_year s false = Ok l ->
   Forall (meta_ok s l) l.
 Proof.
-  intros this_year s l Hne Hclean Hsil Hg.
-  destruct (closed_metadata_ra_final this_year s false l Hne Hclean Hsil Hg) as [l0 [Hg0 [_ H]]].
+  intros this_year s l Hne Hclean Hg.
+  destruct (closed_metadata_ra_final this_year s false l Hne Hclean Hg) as [l0 [Hg0 [_ H]]].
   rewrite Hg in Hg0. injection Hg0 as <-. exact H.
 Qed.
 
@@ -82,15 +82,13 @@ Qed.
 Definition s_example : str := [70;111;111;32;118;46;32;66;97;114;44;32;49;32;85;46;83;46;32;49;32;40;49;57;57;57;41;46;32;73;100;46;32;97;116;32;53;46]%N.
 
 Example final_premises_hold :
-  s_example <> s_eyecite /\ ws_clean is_space_gen s_example /\ odd_short_rows_silent s_example /\
+  s_example <> s_eyecite /\ ws_clean is_space_gen s_example /\
   exists l, get_citations_closed 2026 s_example false = Ok l /\ length l = 2.
 Proof.
   split.
   { intros H. apply (f_equal (@length N)) in H. vm_compute in H. discriminate H. }
   split.
   { apply ws_cleanb_sound. vm_compute. reflexivity. }
-  split.
-  { apply odd_short_rows_silentb_sound. vm_compute. reflexivity. }
   vm_compute. eexists. split; reflexivity.
 Qed.
 
@@ -98,8 +96,34 @@ Qed.
 Example final_example_offsets : forall l,
   get_citations_closed 2026 s_example false = Ok l -> Forall (offsets_ok s_example) l.
 Proof.
-  intros l Hg. destruct final_premises_hold as [H1 [H2 [H3 _]]].
-  exact (closed_offsets_final 2026 s_example false l H1 H2 H3 Hg).
+  intros l Hg. destruct final_premises_hold as [H1 [H2 _]].
+  exact (closed_offsets_final 2026 s_example false l H1 H2 Hg).
+Qed.
+
+(* ---- the repaired short form: "Foo, 19 CO at 12M, 15 (holding x)".  The token "19 CO at 12M" does
+   not end with its page "12" (Proofs/ShortPage.v); before the repair the pin cite was "12, 15",
+   which is not in the text; now it is "15" ---- *)
+Definition s_example_short : str := [70;111;111;44;32;49;57;32;67;79;32;97;116;32;49;50;77;44;32;49;53;32;40;104;111;108;100;105;110;103;32;120;41]%N.
+
+Example final_example_short :
+  s_example_short <> s_eyecite /\ ws_clean is_space_gen s_example_short /\
+  exists c, get_citations_closed 2026 s_example_short false = Ok [c] /\
+            p_cls c = CShort /\ p_pin c = Some [49;53]%N.
+Proof.
+  split.
+  { intros H. apply (f_equal (@length N)) in H. vm_compute in H. discriminate H. }
+  split.
+  { apply ws_cleanb_sound. vm_compute. reflexivity. }
+  vm_compute. eexists. repeat split.
+Qed.
+
+Example final_example_short_offsets : forall l,
+  get_citations_closed 2026 s_example_short false = Ok l ->
+  Forall (offsets_ok s_example_short) l /\ Forall (meta_ok s_example_short l) l.
+Proof.
+  intros l Hg. destruct final_example_short as [H1 [H2 _]]. split.
+  - exact (closed_offsets_final 2026 s_example_short false l H1 H2 Hg).
+  - exact (closed_metadata_final 2026 s_example_short l H1 H2 Hg).
 Qed.
 
 Print Assumptions closed_offsets_final.
@@ -107,3 +131,5 @@ Print Assumptions closed_metadata_final.
 Print Assumptions closed_metadata_ra_final.
 Print Assumptions final_premises_hold.
 Print Assumptions final_example_offsets.
+Print Assumptions final_example_short.
+Print Assumptions final_example_short_offsets.
